@@ -35,7 +35,7 @@ def run_one(sid, tier, extra_props=()):
         meta = json.load(f)
     props = [meta['property']] + [p for p in meta.get('also_breaks', []) if p != meta['property']]
     props += [p for p in extra_props if p not in props]
-    work = os.path.join(SCRATCH, sid)
+    work = os.path.join(SCRATCH, f"{sid}-{os.getpid()}")
     shutil.rmtree(work, ignore_errors=True)
     os.makedirs(work)
     out = {'property': meta['property'], 'checks': {}}
